@@ -36,11 +36,14 @@ static void build_expectations(void)
         { EC_BACKEND_LIBERASURECODE_RS_VAND, 3, 3, 3, 0, CHKSUM_CRC32 }, { EC_BACKEND_NULL, 4, 2, 2, 0, CHKSUM_NONE },
         { EC_BACKEND_ISA_L_RS_VAND, 4, 2, 2, 0, CHKSUM_CRC32 }, { EC_BACKEND_ISA_L_RS_CAUCHY, 5, 3, 3, 0, CHKSUM_CRC32 },
         { EC_BACKEND_FLAT_XOR_HD, 10, 5, 4, 0, CHKSUM_CRC32 }, { EC_BACKEND_SHSS, 4, 2, 2, 0, CHKSUM_CRC32 },
+        { EC_BACKEND_JERASURE_RS_VAND, 4, 2, 2, 0, CHKSUM_CRC32 }, { EC_BACKEND_JERASURE_RS_CAUCHY, 3, 2, 2, 0, CHKSUM_CRC32 },
+        { EC_BACKEND_LIBPHAZR, 4, 2, 1, 0, CHKSUM_CRC32 },
     };
     rng_t r; rng_seed(&r, MO.seed, 0x18000);
     for (size_t i = 0; i < sizeof cf / sizeof cf[0]; i++) {
         if (!isal_ok && (cf[i].be == EC_BACKEND_ISA_L_RS_VAND || cf[i].be == EC_BACKEND_ISA_L_RS_CAUCHY)) continue;
         if (cf[i].be == EC_BACKEND_SHSS && !liberasurecode_backend_available(EC_BACKEND_SHSS)) continue;
+        if ((cf[i].be == EC_BACKEND_JERASURE_RS_VAND || cf[i].be == EC_BACKEND_JERASURE_RS_CAUCHY || cf[i].be == EC_BACKEND_LIBPHAZR) && !liberasurecode_backend_available((ec_backend_id_t)cf[i].be)) continue;
         exp_t *e = &EX[nex++];
         e->c = cf[i]; cfg_key(&e->c, e->ck, sizeof e->ck); code_init(&e->cd, &e->c);
         e->len = 100 + rng_below(&r, 900);
